@@ -283,3 +283,15 @@ func clipS(s string, n int) string {
 	}
 	return s
 }
+
+// StripExamples returns a copy in which every "example" string is blanked.  It is used by the cross-build relations
+// (C08, C09, C10, C15) for projects that declare a regex user type: the example of a schema that reaches a regex type
+// through several routes is not reproducible between builds (open finding N5 of C06, rooted in jsight-schema-core).
+func (n *ON) StripExamples() *ON {
+	return n.MapStrings(func(path []string, s string) string {
+		if len(path) > 0 && path[len(path)-1] == "example" {
+			return ""
+		}
+		return s
+	})
+}
